@@ -398,17 +398,6 @@ def run(prog: Program, ctx: Ctx) -> None:  # noqa: PLR0912,PLR0915
                     names = {t for h in hs for t in (handler_types(h) or ["<bare>"])}
                     ctx.ob("R4", key(f, "SystemExit->ImportError"), bool(names & {"SystemExit", "BaseException", "<bare>"}),
                            "a SystemExit raised while inspecting is converted to ImportError", where(f, call))
-                if any(q.endswith("GriffeLoader._load_module_path") for q in tq) and f.name != "_load_module_path":
-                    hs = enclosing_handlers(call)
-                    names = {t for h in hs for t in (handler_types(h) or ["<bare>"])}
-                    for exc in ("SyntaxError", "ImportError", "UnicodeDecodeError", "OSError"):
-                        covered = exc in names or "Exception" in names or "<bare>" in names or (exc == "UnicodeDecodeError" and "ValueError" in names)
-                        conv = all(
-                            any(isinstance(r, ast.Raise) and r.exc is not None and (dotted(r.exc.func) if isinstance(r.exc, ast.Call) else "") == "LoadingError"
-                                for r in ast.walk(h))
-                            for h in hs if exc in (handler_types(h) or [])
-                        )
-                        ctx.ob("R4", key(f, f"{exc}->LoadingError"), covered and conv, f"{exc} while loading a module becomes LoadingError", where(f, call))
                 if any(q == "_griffe.loader.GriffeLoader.load" for q in tq) and f.name != "load":
                     hs = enclosing_handlers(call)
                     names = {t for h in hs for t in (handler_types(h) or ["<bare>"])}
@@ -416,3 +405,30 @@ def run(prog: Program, ctx: Ctx) -> None:  # noqa: PLR0912,PLR0915
                     ctx.ob("R4", key(f, "external-load-guarded"), ok,
                            "loading an external package during alias/wildcard resolution cannot abort it (ImportError incl. "
                            "ModuleNotFoundError and LoadingError handled)", where(f, call))
+    # _load_module, on behaviour: the module-loading step replaced by a stand-in that raises each kind of failure a module's text or the import
+    # system can produce; whatever the handlers look like, each must come out as LoadingError (first version: the handler types were read off the
+    # `except` clauses; one clause over a computed tuple of classes - behaviour unchanged - left that with nothing to read)
+    from pathlib import PurePosixPath as _PP
+
+    from sa.absint import Interp as _Interp
+    from sa.absint import Obj as _Obj
+    from sa.absint import Raised as _Raised
+
+    lm_fn = loader_cls.methods.get("_load_module", [None])[0]
+    inner = [x for c_ in (calls_in(lm_fn.node) if lm_fn else []) for x, _k in cg.callees_of_call(lm_fn, c_) if isinstance(x, FunctionInfo) and x.cls is loader_cls]
+    if lm_fn is None or not inner:
+        raise AnalysisError("C15-R4: GriffeLoader._load_module (or the loading step it delegates to) vanished")
+    for exc in ("SyntaxError", "ImportError", "ModuleNotFoundError", "UnicodeDecodeError", "OSError", "FileNotFoundError"):
+        it_l = _Interp(prog)
+
+        def boom(_i, *_a, exc=exc, **_k):
+            raise _Raised(exc)
+
+        for x in inner:
+            it_l.stubs[x.qualname] = boom
+        try:
+            it_l.call(lm_fn, _Obj(loader_cls, {"__closed__": True}, label="loader"), "m", _PP("/s/m.py"))
+            got_l = "returns"
+        except _Raised as r:
+            got_l = r.exc
+        ctx.ob("R4", f"_load_module|{exc}->LoadingError", got_l == "LoadingError", f"{exc} while loading a module comes out of _load_module as {got_l} (LoadingError expected)", where(lm_fn))
